@@ -4,6 +4,7 @@ import (
 	"context"
 	"math"
 	"sync"
+	"sync/atomic"
 )
 
 var (
@@ -76,6 +77,7 @@ type GoroutineTaskManager struct {
 	recordLen   int
 	waitGroup   sync.WaitGroup
 	err         error
+	hasErr      int32
 }
 
 func NewGoroutineTaskManager(recordLen int, minimumRequiredPerCore int, cpuNum int) *GoroutineTaskManager {
@@ -90,13 +92,14 @@ func NewGoroutineTaskManager(recordLen int, minimumRequiredPerCore int, cpuNum i
 }
 
 func (m *GoroutineTaskManager) HasError() bool {
-	return m.err != nil
+	return atomic.LoadInt32(&m.hasErr) != 0
 }
 
 func (m *GoroutineTaskManager) SetError(e error) {
 	m.grTaskMutex.Lock()
-	if m.err == nil {
+	if m.err == nil && e != nil {
 		m.err = e
+		atomic.StoreInt32(&m.hasErr, 1)
 	}
 	m.grTaskMutex.Unlock()
 }
